@@ -191,7 +191,7 @@ func c17Identifiers(c *mon.Ctx) {
 		checkUser(s)
 		checkRoom(s)
 	}
-	nSeeds := c.Scale(600, 12000)
+	nSeeds := c.Scale(600, 400000)
 	for k := 0; k < nSeeds; k++ {
 		var s string
 		switch k % 4 {
@@ -220,7 +220,7 @@ func c17Identifiers(c *mon.Ctx) {
 			all(s, false)
 		}
 	}
-	nRand := c.Scale(1500, 30000)
+	nRand := c.Scale(1500, 1000000)
 	for k := 0; k < nRand; k++ {
 		b := r.Bytes(r.Range(0, 24))
 		if len(b) > 0 && r.Chance(0.5) {
@@ -238,7 +238,7 @@ func c17Identifiers(c *mon.Ctx) {
 
 func c17Base64(c *mon.Ctx) {
 	r := c.Rand("b64")
-	reps := c.Scale(8, 200)
+	reps := c.Scale(8, 4000)
 	for n := 0; n <= 70; n++ {
 		for k := 0; k < reps; k++ {
 			raw := r.Bytes(n)
